@@ -11,12 +11,22 @@ open Ural Ural.Py
 
 /-! ## table obligations -/
 
-/-- the two regexes of `infer_redirection.py` are the ones the hand matchers were written
-for, both compiled with exactly `re.IGNORECASE` (| `re.UNICODE`) -/
-theorem redirect_patterns_unchanged :
-    Gen.obviousRedirectsPattern = obviousRedirectsPatternModelled ∧ Gen.obviousRedirectsFlags = 34 ∧
-    Gen.redirectionDomainsPattern = redirectionDomainsPatternModelled ∧
-    Gen.redirectionDomainsFlags = 34 := by decide
+/-- a literal the case-insensitive matcher `matchLit` handles as the regex engine does: lower
+case letters, digits, `_`, `-`, `.`, `/` only (in particular no `=`, `&`, no upper case) -/
+def litOk (s : String) : Bool :=
+  s.toList ≠ [] && s.toList.all (fun c =>
+    ('a' ≤ c && c ≤ 'z') || ('0' ≤ c && c ≤ '9') || c = '_' || c = '-' || c = '.' || c = '/')
+
+/-- the two regexes of `infer_redirection.py` still have the frame the matchers implement
+— `(?:^|[?&])(` keys `)=([^&]+)`, resp. a bare alternation —, are compiled with exactly
+`re.IGNORECASE` (| `re.UNICODE`), and their expansions are plain lower-case literals.  The
+key list and the cache-host list themselves are free to change. -/
+theorem redirect_patterns_shape :
+    Gen.obviousRedirectsPattern =
+      obviousRedirectsPrefix ++ Gen.redirectKeysSource ++ obviousRedirectsSuffix ∧
+    Gen.obviousRedirectsFlags = 34 ∧ Gen.redirectionDomainsFlags = 34 ∧
+    Gen.redirectKeys.all litOk = true ∧ Gen.cacheHosts.all litOk = true ∧
+    Gen.redirectKeys ≠ [] ∧ Gen.cacheHosts ≠ [] := by decide
 
 /-- the scheme tables of the running `urllib.parse` are the ones copied into the `urljoin`
 model -/
